@@ -20,6 +20,7 @@ ASSUMPTIONS = ['with saliency the monotone quantity is sum_n s_n log sum_k pi_k 
                'guard-free prefix: every cACG eigenvalue >= 1e4*floor, Watson concentration strictly inside (0, max)']
 SHARD = 40
 
+_COUNT = [0]
 NAMES = ['cacgmm', 'cacgmm', 'cwmm', 'gmm', 'gmm', 'gcacgmm']
 
 
@@ -57,6 +58,11 @@ def make(rng, tier, tied_stratum=None):
         lead = (int(rng.integers(2, 4)),)
     data = mm.make_data(rng, name, K, D, N, lead, separation=float(rng.choice([1.0, 2.5, 5.0])))
     init = mm.make_init(rng, K, N, lead, 'positive')
+    _COUNT[0] += 1
+    int_init = name != 'gcacgmm' and _COUNT[0] % 5 == 0
+    if int_init:
+        # "all strictly positive initial affiliations": vote counts, integer typed and not normalised
+        init = rng.integers(1, 7, size=init.shape)
     o = {}
     nd = len(lead) + 2
     if name == 'gcacgmm':
@@ -67,7 +73,7 @@ def make(rng, tier, tied_stratum=None):
     else:
         wcas = [(-1,), -1, -2] + ([(-3,), (-3, -1)] if nd >= 3 else [])
         o['weight_constant_axis'] = wcas[int(rng.integers(0, len(wcas)))]
-    if rng.random() < 0.45:
+    if rng.random() < 0.45 or int_init:
         sal = rng.uniform(0.3, 2.0, size=(*lead, N))
         if lead and rng.random() < 0.7:
             # totals that differ between the independent slices (e.g. repetition counts / power per frequency)
@@ -87,7 +93,7 @@ def make(rng, tier, tied_stratum=None):
         o['saliency'] = np.floor(rng.uniform(1, 4, size=(*lead, N))) * 10.0 ** rng.uniform(-1.5, 1.5, size=(*lead, 1))
         iters = int(rng.integers(25, 36))
     rp = {'model': name, 'data': {k: v for k, v in data.items() if k != 'labels'}, 'init': init, 'opts': o, 'iterations': iters}
-    label = 'EM ascent %s K=%d D=%d N=%d lead=%s iters=%d opts=%s' % (name, K, D, N, lead, iters, mm.describe_options(o))
+    label = 'EM ascent %s K=%d D=%d N=%d lead=%s iters=%d init=%s opts=%s' % (name, K, D, N, lead, iters, init.dtype, mm.describe_options(o))
     fail, key, coq, nt = evaluate(rp, rng)
     return Case(label, coq=coq, pred_fail=fail, key=key, nontrivial=nt, digest_=core.digest(label, init, *rp['data'].values()),
                 sample={'name': label}, replay=rp, kind='ascent/' + name)
